@@ -56,6 +56,7 @@ var mAlphabet = []mrec{
 	{rank: 3, ref: 1, pos: 5, mate: -1, mpos: -1, mapq: 40},
 	{rank: 4, ref: 1, pos: 30, mate: 0, mpos: 3, mapq: 20},
 	{rank: 5, ref: -1, pos: -1, mate: -1, mpos: -1, mapq: 30},
+	{rank: 6, ref: -1, pos: -1, mate: 1, mpos: 9, mapq: 0}, // no reference of its own, a placed mate
 }
 
 func mName(rank, input int) string { return fmt.Sprintf("n%d%c", rank, 'a'+input) }
@@ -400,7 +401,7 @@ func sortedSubsets(order string, refs []string, max int) [][]int {
 }
 
 func c18(c *Ctx) {
-	c.Rule = "inputs: k in {1,2} (thorough also 3) BAM inputs written by bam.Writer, each any subset of <=3 (k=3: <=2) records of a 5-record alphabet (two positions on each of two references, mates on the other reference, one unplaced) sorted in the declared order; header pairs: equal reference lists, disjoint, overlapping, same set in another order, and lists whose header order differs from name order; orders: unknown with nil less, unknown with a custom less (MAPQ), unsorted, queryname, coordinate; empty inputs included. Fault dimension (k=2): every index j of the underlying Read of one input fails. Oracle = k-way merge model: output multiset equals the union; sorted in the declared order (coordinate = merged header's reference order, then position, unplaced last; unsorted/nil less = concatenation); relative order within an input preserved; io.EOF only after all inputs; an injected read error is returned by some Read; every Ref and MateRef is an element of Merger.Header().Refs() with the name it had in its source. Non-trivial: merges with at least two non-empty inputs or a fault."
+	c.Rule = "inputs: k in {1,2} (thorough also 3) BAM inputs written by bam.Writer, each any subset of <=3 (k=3: <=2) records of a 6-record alphabet (two positions on each of two references, mates on the other reference, one unplaced, one unplaced whose mate is placed) sorted in the declared order; header pairs: equal reference lists, disjoint, overlapping, same set in another order, and lists whose header order differs from name order; orders: unknown with nil less, unknown with a custom less (MAPQ), unsorted, queryname, coordinate; empty inputs included. Fault dimension (k=2): every index j of the underlying Read of one input fails. Oracle = k-way merge model: output multiset equals the union; sorted in the declared order (coordinate = merged header's reference order, then position, unplaced last; unsorted/nil less = concatenation); relative order within an input preserved; io.EOF only after all inputs; an injected read error is returned by some Read; every Ref and MateRef is an element of Merger.Header().Refs() with the name it had in its source. Non-trivial: merges with at least two non-empty inputs or a fault."
 	if c.Replay != nil {
 		var cas c18case
 		if err := json.Unmarshal(c.Replay, &cas); err != nil {
